@@ -3,6 +3,7 @@ package rlwe
 import (
 	"fmt"
 	"math/big"
+	"math/bits"
 
 	"github.com/tuneinsight/lattigo/v6/ring"
 	"github.com/tuneinsight/lattigo/v6/utils"
@@ -98,10 +99,15 @@ func (eval RingPackingEvaluator) extract(ct *Ciphertext, idx map[int]bool, naive
 
 	keys := utils.GetSortedKeys(idx)
 
-	_, logGap, err := getMinimumGap(keys)
-
-	if err != nil {
-		return nil, fmt.Errorf("getMinimumGap: %w", err)
+	// Largest power of two that divides every index: coefficients that
+	// are not a multiple of it are discarded during the extraction.
+	var logGap int
+	if len(keys) > 1 {
+		var or int
+		for _, k := range keys {
+			or |= k
+		}
+		logGap = bits.TrailingZeros64(uint64(or))
 	}
 
 	// First recursively splits the ciphertexts into smaller ciphertexts of half the ring
